@@ -133,8 +133,16 @@ pub fn serr<T>(what: &str, r: Result<Result<T, grenad::Error<sm::MergeErr>>, Str
 }
 
 pub fn feed<CC: grenad::ChunkCreator>(conf: &SConf, mf: MF, cc: CC, inserts: &[(Vec<u8>, Vec<u8>)]) -> Check<grenad::Sorter<MF, CC>> {
-    let mut b = grenad::Sorter::builder(mf).chunk_creator(cc);
-    conf.apply(&mut b);
+    // `chunk_creator` is one more setter that commutes with the others: for order >= 6 it is called last
+    let b = if conf.order >= 6 {
+        let mut b0 = grenad::Sorter::builder(mf);
+        conf.apply(&mut b0);
+        b0.chunk_creator(cc)
+    } else {
+        let mut b = grenad::Sorter::builder(mf).chunk_creator(cc);
+        conf.apply(&mut b);
+        b
+    };
     let mut s = match catch(|| b.build()) {
         Ok(s) => s,
         Err(p) => return Err(Fail::new(format!("sorter:{}", panic_sig(&p)), format!("SorterBuilder::build panicked: {p}"))),
@@ -269,7 +277,7 @@ impl Prop for C07 {
                 Case { conf, kind, src: InsertSrc::Many { n, key_mod, mul, kpad: 0, vlen: 4 }, raw: false }
             });
         // the public API without hooks: real 10 MiB clamp, default capacities
-        let public = (prop::sample::select(&MergeKind::ALL[..]), insert_src(tier), any::<bool>(), any::<bool>(), prop::sample::select(vec![1usize, 2, 25]), 0u8..6, prop::bool::weighted(0.35)).prop_map(
+        let public = (prop::sample::select(&MergeKind::ALL[..]), insert_src(tier), any::<bool>(), any::<bool>(), prop::sample::select(vec![1usize, 2, 25]), 0u8..12, prop::bool::weighted(0.35)).prop_map(
             |(kind, src, allow_realloc, stable, max_nb_chunks, order, raw)| Case {
                 raw,
                 conf: SConf {
